@@ -329,13 +329,22 @@ func (c *Ctx) valueOfID(st *State, id string, t types.Type) Val {
 	return OpaqueV{T: t}
 }
 
-func (c *Ctx) bytesOfID(id string, isStr bool) SliceV {
+func (c *Ctx) declBytesFuns() {
 	is := c.idx().smt()
+	if c.declared["BytesLen"] {
+		return
+	}
 	c.declareFun("BytesLen", "(Int) "+is)
 	c.declareFun("BytesArr", "(Int) "+c.byteArrSort())
+	c.global("(assert (forall ((b Int)) (! " + c.lenBounds("(BytesLen b)") + " :pattern ((BytesLen b)))))")
+}
+
+func (c *Ctx) bytesOfID(id string, isStr bool) SliceV {
+	is := c.idx().smt()
+	c.declBytesFuns()
 	ln := c.defRaw("elen", is, "(BytesLen "+id+")")
 	c.assume(c.lenBounds(ln))
-	return SliceV{Arr: c.defRaw("ebytes", c.byteArrSort(), "(BytesArr "+id+")"), Off: c.ilit(0), Len: ln, Cap: ln, Nil: "false", Prov: "field", IsStr: isStr}
+	return SliceV{Arr: c.defRaw("ebytes", c.byteArrSort(), "(BytesArr "+id+")"), Off: c.ilit(0), Len: ln, Cap: ln, Nil: "false", Prov: "field", IsStr: isStr, Id: id}
 }
 
 // idOfValue: inverse direction for appends / map stores of non-scalar values
@@ -346,9 +355,10 @@ func (c *Ctx) idOfValue(st *State, v Val) string {
 	case PtrV:
 		return x.Ref
 	case SliceV:
-		is := c.idx().smt()
-		c.declareFun("BytesLen", "(Int) "+is)
-		c.declareFun("BytesArr", "(Int) "+c.byteArrSort())
+		if x.Id != "" {
+			return x.Id
+		}
+		c.declBytesFuns()
 		id := c.freshRaw("bid", "Int")
 		c.assume("(= (BytesLen " + id + ") " + x.Len + ")")
 		if x.Off == c.ilit(0) {
